@@ -77,6 +77,23 @@ type MessageGoodOne struct{ A uint8 }
 
 func (*MessageGoodOne) GetID() uint32 { return 60010 }
 
+// duplicates in the part of the id space no shipped dialect uses (>= 2^16, the top id, just above 2^16)
+type MessageDupHigh struct{ B uint16 }
+
+func (*MessageDupHigh) GetID() uint32 { return 0x010005 } // same id as MessageUserHighId
+
+type MessageDupTop struct{ C uint32 }
+
+func (*MessageDupTop) GetID() uint32 { return 0xFFFFFF } // same id as MessageUserMaxId
+
+type MessageDup65536A struct{ A uint8 }
+
+func (*MessageDup65536A) GetID() uint32 { return 65536 }
+
+type MessageDup65536B struct{ B uint8 }
+
+func (*MessageDup65536B) GetID() uint32 { return 65536 }
+
 type MessageGoodDup struct{ B uint16 }
 
 func (*MessageGoodDup) GetID() uint32 { return 60010 } // same id as MessageGoodOne
@@ -211,6 +228,10 @@ func cmdC17(o opts) {
 		{"enum_wire_types_all_valid", []message.Message{&MessageUserEnums{}}},
 		{"malformed_last_of_many", append(append([]message.Message{}, com.Messages[:30]...), &MessageBadType{})},
 		{"empty", []message.Message{}},
+		{"duplicate_id_above_16_bits", []message.Message{&MessageGoodOne{}, &MessageUserHighId{}, &MessageDupHigh{}}},
+		{"duplicate_top_id", []message.Message{&MessageDupTop{}, &MessageGoodOne{}, &MessageUserMaxId{}}},
+		{"duplicate_id_65536", []message.Message{&MessageDup65536A{}, &MessageDup65536B{}}},
+		{"distinct_high_ids", []message.Message{&MessageUserHighId{}, &MessageUserHighId2{}, &MessageUserMaxId{}, &MessageDup65536A{}}},
 		{"malformed_namesake_of_shipped_message", namesakeCase},
 		{"namesakes_of_shipped_messages", inhouse.Good},
 	}
